@@ -13,6 +13,7 @@ mod gen_cont;
 mod gen_fail;
 mod gen_lang;
 mod gen_scope;
+mod gen_sym;
 mod rng;
 
 fn main() {
